@@ -20,6 +20,9 @@ iteration order (`Input.oracle`), every configuration whose other features requi
 -/
 namespace XmppModel.Props.C02
 open XmppModel XmppModel.StartTLS
+-- (the types of the probe tables are nested deeply enough for the default limit of the instance
+-- search that finds their decidable equality)
+set_option synthInstance.maxSize 1024
 
 /-! ### Tie to the source: regenerated facts -/
 
@@ -54,7 +57,6 @@ theorem C02_gen_start_state_table :
     Generated.C02.startStateProbe = some (startStateDomain.map fun i => (i, startStateModel i)) := by
   decide +kernel
 
-set_option synthInstance.maxSize 1024 in
 /-- **negotiator.go + features.go, the first features list**: for every tee variant (off, TeeIn,
 TeeOut, both), every clear connection kind, the first list empty / naming only an unknown
 feature / STARTTLS optional / STARTTLS required, and a peer that then stays silent or says
@@ -87,20 +89,28 @@ theorem C02_gen_server_name_table :
     Generated.C02.serverNameProbe = some (serverNameDomain.map fun i => (i, serverNameModel i)) := by
   decide +kernel
 
-set_option synthInstance.maxSize 1024 in
 /-- **negotiator.go, the addresses of the peer's stream header, probed on the real code**: for
 every `to` of the address universe (none, own address, other localpart / domain / resourcepart,
 bare domains, same and other lengths) and every kind of `from`, in the header received in clear
 text and in the header received after the TLS switch, on c2s and s2s sessions, the observable
-trace, the outcome and `LocalAddr()` after the real `NewSession` are the model's: a header is
+trace and the outcome of the real `NewSession` are the model's: a header is
 accepted only with the session's own address (or none) as `to`, the ClientHello names the own
 domain, the own address stays what it was. -/
 theorem C02_gen_header_address_table :
-    ∃ rr rt sk, Generated.C02.featuresFlags = some (rr, rt, sk) ∧
-      Generated.C02.headerAddressProbe =
-        some (headerAddressDomain.map fun i => (i, headerAddressModel rr rt sk i)) := by
-  refine ⟨_, _, _, rfl, ?_⟩
-  decide +kernel
+    Generated.C02.headerAddressProbe = some headerAddressExpected ∧
+    ∀ rr rt sk, headerAddressExpected = headerAddressDomain.map fun i => (i, headerAddressModel rr rt sk i) := by
+  refine ⟨by decide, ?_⟩
+  intro rr rt sk
+  cases rr <;> cases rt <;> cases sk <;> decide +kernel
+
+/-- … and `LocalAddr()` after each of those calls is the model's: the address the session was
+created with -/
+theorem C02_gen_header_local_table :
+    Generated.C02.headerLocalProbe = some headerLocalExpected ∧
+    ∀ rr rt sk, headerLocalExpected = headerAddressDomain.map fun i => (i, headerLocalModel rr rt sk i) := by
+  refine ⟨by decide, ?_⟩
+  intro rr rt sk
+  cases rr <;> cases rt <;> cases sk <;> decide +kernel
 
 /-- **addresses are values** (stream.Info.FromStartElement, jid unmarshalling): for every ordered
 pair of an address universe that contains addresses of equal and of different shapes, parsing a
